@@ -23,7 +23,7 @@ Section Inv.
     (final c = true -> rest c = []) /\
     bufStart c + zlen (buf c) = zlen (digested c) /\
     (0 < bcap c)%nat /\ (length (buf c) <= bcap c)%nat /\
-    chunkSize c = zlen (buf c) /\
+    (0 < chunkSize c -> chunkSize c = zlen (buf c)) /\
     (log c = [] \/ chunkStart c = zlen (sdata c)) /\
     (log c = [] -> chunkStart c = 0).
 
@@ -42,7 +42,7 @@ Section Inv.
       - intro Hf. rewrite (H2 Hf). now destruct n. }
     split; [rewrite zlen_app, <- H3; reflexivity|].
     split; [exact H4|]. split; [rewrite Hfl; subst n; lia|].
-    split; [unfold zlen; now rewrite Hfl|]. split; [exact H6|exact H7].
+    split; [intros _; unfold zlen; now rewrite Hfl|]. split; [exact H6|exact H7].
   Qed.
 
   Lemma read_ahead_inv : forall fuel c, Inv c -> Inv (read_ahead fuel c).
@@ -61,13 +61,20 @@ Section Inv.
     assert (Hk : (k < length (buf c))%nat) by (unfold zlen in E2; subst k; lia).
     split; [exact H1|]. split; [exact H2|].
     split; [unfold zlen; rewrite skipn_length; unfold zlen in H3; subst k; lia|].
-    split; [lia|]. split; [rewrite skipn_length; lia|]. split; [reflexivity|]. split; [exact H6|].
+    split; [lia|]. split; [rewrite skipn_length; lia|]. split; [intros _; reflexivity|]. split; [exact H6|].
     intro Hl. specialize (H7 Hl). lia.
   Qed.
 
-  Lemma patch_inv c c' o : Inv c -> patch c = (c', o) -> Inv c' /\ log c' <> [].
+  Lemma settle_inv c : Inv c -> Inv (settle c).
   Proof.
-    intros (H1 & H2 & H3 & H4 & H5 & H5b & H6 & H7). unfold patch.
+    intros (H1 & H2 & H3 & H4 & H5 & H5b & H6 & H7). unfold settle.
+    destruct (final c && (chunkStart c >=? bufStart c + zlen (buf c))); [|repeat split; auto].
+    unfold Inv; cbn [digested rest final bufStart buf bcap log chunkStart chunkSize sdata]. repeat split; auto. intro; lia.
+  Qed.
+
+  Lemma patch_inv c c' o : Inv c -> 0 < chunkSize c -> patch c = (c', o) -> Inv c' /\ log c' <> [].
+  Proof.
+    intros (H1 & H2 & H3 & H4 & H5 & H5b & H6 & H7) Hcs. specialize (H5b Hcs). unfold patch.
     destruct (negb (chunkStart c =? zlen (sdata c))) eqn:Eo.
     - intro H; injection H as <- _. split; [|discriminate]. unfold Inv; cbn. repeat split; auto. intro; discriminate.
     - apply negb_false_iff in Eo. apply Z.eqb_eq in Eo.
@@ -83,15 +90,15 @@ Section Inv.
   Lemma iterate_inv c c' o : Inv c -> iterate c = (c', o) -> Inv c'.
   Proof.
     intros HI. unfold iterate.
-    set (c1 := reslice (read_ahead (S (length (rest c))) c)).
-    assert (H1 : Inv c1) by (apply reslice_inv, read_ahead_inv, HI).
+    set (c1 := settle (reslice (read_ahead (S (length (rest c))) c))).
+    assert (H1 : Inv c1) by (apply settle_inv, reslice_inv, read_ahead_inv, HI).
     destruct ((chunkSize c1 >? 0) && negb (chunkStart c1 =? bufStart c1)); [intro H; now injection H as <- _|].
-    destruct (chunkSize c1 >? 0); [intro H; now destruct (patch_inv _ _ _ H1 H)|intro H; now injection H as <- _].
+    destruct (chunkSize c1 >? 0) eqn:Ecs; [intro H; apply Z.gtb_lt in Ecs; now destruct (patch_inv _ _ _ H1 Ecs H)|intro H; now injection H as <- _].
   Qed.
 
   Lemma iterate_not_done c c' o : iterate c = (c', o) -> o <> Done.
   Proof.
-    unfold iterate. set (c1 := reslice _).
+    unfold iterate. set (c1 := settle _).
     destruct ((chunkSize c1 >? 0) && negb (chunkStart c1 =? bufStart c1)); [intro H; injection H as _ <-; discriminate|].
     destruct (chunkSize c1 >? 0); [|intro H; injection H as _ <-; discriminate].
     unfold patch. destruct (negb (chunkStart c1 =? zlen (sdata c1))).
@@ -146,108 +153,329 @@ Qed.
 
 (* ---------- a conforming registry: every well-formed upload succeeds ---------- *)
 Definition accepting (sc : list sact) : bool := forallb (fun a => match a with SAccept | SReloc => true | _ => false end) sc.
-
-Definition J (c : cst) : Prop :=
-  accepting (script c) = true /\ chunkStart c = zlen (sdata c) /\ bufStart c + zlen (buf c) = chunkStart c /\
-  sdata c = digested c /\ retry c = 0%nat /\ (0 < bcap c)%nat /\ (final c = true -> rest c = []).
+Definition is_drop (a : sact) : bool := match a with SDrop _ => true | _ => false end.
+Definition drops (sc : list sact) : nat := length (filter is_drop sc).
 
 Lemma zlen_app' a b : zlen (a ++ b) = zlen a + zlen b.
 Proof. unfold zlen. rewrite app_length. lia. Qed.
+Lemma zlen_nonneg a : 0 <= zlen a. Proof. unfold zlen. lia. Qed.
+Lemma zlen_nil_iff a : zlen a = 0 <-> a = [].
+Proof. unfold zlen. destruct a; cbn; split; intro H; try reflexivity; try discriminate; lia. Qed.
+Lemma zlen_firstn k (a : bytes) : (k <= length a)%nat -> zlen (firstn k a) = Z.of_nat k.
+Proof. intro H. unfold zlen. rewrite firstn_length. f_equal. lia. Qed.
+Lemma zlen_skipn k (a : bytes) : zlen (skipn k a) = zlen a - Z.of_nat (Nat.min k (length a)).
+Proof. unfold zlen. rewrite skipn_length. lia. Qed.
 
-Lemma accepting_tl sc : accepting sc = true -> accepting (tl sc) = true.
-Proof. destruct sc as [|a sc]; cbn; [auto|]. intro H. apply andb_prop in H. tauto. Qed.
-
-Lemma read_ahead_stop : forall k c, ((chunkStart c >=? bufStart c + zlen (buf c)) && negb (final c)) = false -> read_ahead k c = c.
-Proof. intros [|k] c H; cbn [read_ahead]; [reflexivity|now rewrite H]. Qed.
-
-(* one iteration from a state in which everything sent so far is stored and more may be read *)
-Lemma iterate_J c : J c -> final c = false ->
-  exists c', iterate c = (c', Running) /\ J c' /\ digested c' ++ rest c' = digested c ++ rest c /\
-             ((rest c <> [] -> (length (rest c') < length (rest c))%nat) /\ (rest c = [] -> final c' = true /\ rest c' = [])).
+(* two prefixes of one list *)
+Lemma prefix_same {A} (a b x y : list A) : a ++ x = b ++ y -> length a = length b -> a = b /\ x = y.
 Proof.
-  destruct c as [rs dg bs bf cap cs csz fin rt sd sc lg]. unfold J. cbn [script chunkStart sdata bufStart buf digested retry bcap final rest].
-  intros (Ha & Hcs & Hbs & Hsd & Hrt & Hcap & Hfin) Hf. subst fin rt sd.
-  unfold iterate. cbn [rest].
-  (* the read-ahead reads one buffer and stops *)
-  set (c0 := mkC rs dg bs bf cap cs csz false 0 dg sc lg).
-  assert (E0 : read_ahead (S (length rs)) c0 = read_full c0).
-  { cbn [read_ahead]. unfold c0 at 1 2 3 4. cbn [chunkStart bufStart buf final].
-    replace (cs >=? bs + zlen bf) with true by (symmetry; apply Z.geb_le; lia). cbn [andb negb].
-    apply read_ahead_stop. unfold read_full, c0. cbn [chunkStart bufStart buf final bcap rest].
-    set (n := Nat.min cap (length rs)).
-    assert (Hl : zlen (firstn n rs) = Z.of_nat n) by (unfold zlen; rewrite firstn_length; subst n; f_equal; lia).
-    rewrite Hl. destruct (Nat.ltb_spec n cap) as [Hlt|Hge]; cbn [negb]; [apply andb_false_r|].
-    rewrite andb_true_r, Z.geb_leb. apply Z.leb_gt. assert (0 < n)%nat by (subst n; destruct rs; cbn in *; try lia; lia). lia. }
-  rewrite E0. unfold read_full, c0. cbn [chunkStart bufStart buf final bcap rest digested retry sdata script log].
-  set (n := Nat.min cap (length rs)). set (got := firstn n rs).
-  assert (Hl : zlen got = Z.of_nat n) by (unfold zlen, got; rewrite firstn_length; subst n; f_equal; lia).
-  unfold reslice. cbn [chunkStart bufStart buf]. replace (cs >? bs + zlen bf) with false by (rewrite Z.gtb_ltb; symmetry; apply Z.ltb_ge; lia). cbn [andb].
-  cbn [chunkSize chunkStart bufStart].
-  destruct (Nat.eq_dec n 0) as [Hn0|Hn0].
-  - (* nothing left: the short read marks the end *)
-    assert (Hrs : rs = []) by (subst n; destruct rs; [reflexivity|cbn in Hn0; lia]).
-    rewrite Hn0. cbn [Z.of_nat Z.gtb Z.compare andb]. eexists. split; [reflexivity|]. subst rs. cbn [firstn skipn length Nat.min] in *.
-    assert (Hcap' : (0 <? cap)%nat = true) by (apply Nat.ltb_lt; lia).
-    unfold J. cbn [script chunkStart sdata bufStart buf digested retry bcap final rest]. subst n got. cbn [Nat.min firstn] in *.
-    replace (Nat.min cap 0) with 0%nat by lia. cbn [firstn skipn]. rewrite Hcap'. rewrite !app_nil_r.
-    change (zlen []) with 0. repeat split; auto; try lia; intro H; congruence.
-  - assert (Hgt : Z.of_nat n >? 0 = true) by (apply Z.gtb_lt; lia). rewrite Hgt. cbn [andb].
-    replace (cs =? bs + zlen bf) with true by (symmetry; apply Z.eqb_eq; lia). cbn [negb].
-    unfold patch. cbn [buf chunkStart sdata log script rest digested bufStart bcap chunkSize final retry].
-    replace (cs =? zlen dg) with true by (symmetry; apply Z.eqb_eq; lia). cbn [negb].
-    assert (Hnle : (n <= length rs)%nat) by (subst n; lia).
-    assert (Hrsne : rs <> []) by (intro E; subst rs; subst n; cbn in Hn0; rewrite Nat.min_0_r in Hn0; lia).
-    assert (Hsk : (length (skipn n rs) < length rs)%nat) by (rewrite skipn_length; lia).
-    assert (Hfs : got ++ skipn n rs = rs) by (unfold got; apply firstn_skipn).
-    assert (Hlast : (if (n <? cap)%nat then true else false) = true -> skipn n rs = []).
-    { destruct (Nat.ltb_spec n cap) as [Hlt|Hge]; [|discriminate]. intros _. assert (n = length rs) by (subst n; lia). rewrite H. apply skipn_all. }
-    destruct sc as [|[| |k|] sc']; cbn in Ha; try discriminate.
-    all: eexists; split; [reflexivity|]; unfold J; cbn [script chunkStart sdata bufStart buf digested retry bcap final rest tl].
-    all: split; [repeat split; auto; try (rewrite zlen_app'; lia)|].
-    all: split; [rewrite <- app_assoc, Hfs; reflexivity|split; [intros _; exact Hsk|intro E; contradiction]].
+  revert b; induction a as [|h a IH]; intros [|h' b] H Hl; cbn in *; try discriminate; [now split|].
+  injection H as -> H. destruct (IH b H ltac:(lia)) as [-> ->]. now split.
+Qed.
+Lemma prefix_longer {A} (a b x y : list A) : a ++ x = b ++ y -> (length a <= length b)%nat -> exists m, b = a ++ m /\ x = m ++ y.
+Proof.
+  revert b; induction a as [|h a IH]; intros b H Hl; cbn in *; [exists b; now split|].
+  destruct b as [|h' b]; cbn in *; [lia|]. injection H as -> H. destruct (IH b H ltac:(lia)) as (m & -> & ->). exists m. now split.
 Qed.
 
-Lemma continue_final c : J c -> final c = true -> continue c = false.
-Proof. intros (_ & _ & Hb & _) Hf. unfold continue. rewrite Hf. cbn. apply Z.ltb_ge. lia. Qed.
-Lemma continue_more c : final c = false -> continue c = true.
-Proof. intro Hf. unfold continue. now rewrite Hf. Qed.
+Lemma split3 {A} (a b1 b2 r b : list A) : b = b1 ++ b2 -> (a ++ b1) ++ b2 ++ r = (a ++ b) ++ r.
+Proof. intros ->. now rewrite <- !app_assoc. Qed.
 
-Lemma loop_J : forall n c, J c -> (length (rest c) <= n)%nat ->
-  exists c', loop (n + 2) c = (c', Done) /\ J c' /\ digested c' = digested c ++ rest c /\ rest c' = [].
+Section Succeeds.
+  Variable stream : bytes.
+
+  Definition Budget (c : cst) : Prop := (retry c + drops (script c) <= retry_limit)%nat.
+
+  (* reading invariant: what was read plus what is left is the stream; the buffer is the tail of what was read; the
+     client never has to go back before the buffer *)
+  Definition R (c : cst) : Prop :=
+    digested c ++ rest c = stream /\ (final c = true -> rest c = []) /\
+    (exists pre, digested c = pre ++ buf c /\ zlen pre = bufStart c) /\
+    (0 < bcap c)%nat /\ (length (buf c) <= bcap c)%nat /\ bufStart c <= chunkStart c.
+  Definition CS (c : cst) : Prop := chunkSize c = zlen (buf c).
+
+  (* in step with the registry: it holds a prefix of the stream and the client knows how long it is *)
+  Definition Sync (c : cst) : Prop := (exists post, sdata c ++ post = stream) /\ chunkStart c = zlen (sdata c).
+
+  Definition same_session (c c' : cst) : Prop :=
+    chunkStart c' = chunkStart c /\ sdata c' = sdata c /\ script c' = script c /\ retry c' = retry c /\ log c' = log c.
+
+  Lemma read_full_R c : R c -> chunkStart c >= bufStart c + zlen (buf c) -> final c = false ->
+    R (read_full c) /\ CS (read_full c) /\ same_session c (read_full c) /\
+    (final (read_full c) = false -> (length (rest (read_full c)) < length (rest c))%nat) /\
+    (rest c = [] -> final (read_full c) = true).
+  Proof.
+    intros (H1 & H2 & (pre & Hp & Hz) & H4 & H4b & H5) Hge Hf. unfold read_full.
+    set (n := Nat.min (bcap c) (length (rest c))).
+    assert (Hfl : length (firstn n (rest c)) = n) by (rewrite firstn_length; subst n; lia).
+    split; [|split; [unfold CS; cbn [chunkSize buf]; unfold zlen; now rewrite Hfl|split; [|split]]].
+    - unfold R; cbn [digested rest final bufStart buf bcap chunkStart chunkSize].
+      split; [rewrite <- app_assoc, firstn_skipn; exact H1|]. split.
+      { destruct (Nat.ltb_spec n (bcap c)) as [Hl|Hl]; [|congruence].
+        intros _. assert (Hn : n = length (rest c)) by (subst n; lia). rewrite Hn. apply skipn_all. }
+      split; [exists (pre ++ buf c); split; [now rewrite Hp|rewrite zlen_app'; lia]|].
+      split; [exact H4|]. split; [rewrite Hfl; subst n; lia|lia].
+    - unfold same_session. cbn. auto.
+    - cbn [final rest]. destruct (Nat.ltb_spec n (bcap c)) as [Hl|Hl]; [discriminate|]. intros _. rewrite skipn_length. subst n. lia.
+    - intro Hr. cbn [final]. subst n. rewrite Hr. cbn [length]. rewrite Nat.min_0_r. destruct (Nat.ltb_spec 0 (bcap c)); [reflexivity|lia].
+  Qed.
+
+  Lemma read_ahead_R : forall fuel c, R c -> (length (rest c) < fuel)%nat ->
+    let c' := read_ahead fuel c in
+    R c' /\ (CS c -> CS c') /\ same_session c c' /\ (chunkStart c' < bufStart c' + zlen (buf c') \/ final c' = true) /\
+    (final c = true \/ chunkStart c < bufStart c + zlen (buf c) -> c' = c) /\
+    (length (rest c') <= length (rest c))%nat.
+  Proof.
+    induction fuel as [|f IH]; intros c HR Hfuel; [lia|]. cbn [read_ahead].
+    destruct ((chunkStart c >=? bufStart c + zlen (buf c)) && negb (final c)) eqn:E.
+    - apply andb_prop in E as [E1 E2]. apply Z.geb_le in E1. apply negb_true_iff in E2.
+      destruct (read_full_R c HR ltac:(lia) E2) as (HR1 & HC1 & Hs1 & Hless & Hlast).
+      destruct (final (read_full c)) eqn:Ef1.
+      + (* the read was short: the loop stops *)
+        assert (Estop : read_ahead f (read_full c) = read_full c).
+        { destruct f; cbn [read_ahead]; [reflexivity|]. rewrite Ef1. now rewrite andb_false_r. }
+        rewrite Estop. split; [exact HR1|]. split; [intros _; exact HC1|]. split; [exact Hs1|]. split; [now right|]. split.
+        * intros [H|H]; [congruence|lia].
+        * unfold read_full. cbn [rest]. rewrite skipn_length. lia.
+      + specialize (Hless eq_refl).
+        destruct (IH (read_full c) HR1 ltac:(lia)) as (HR2 & HC2 & Hs2 & Hstop & _ & Hle).
+        split; [exact HR2|]. split; [intros _; now apply HC2|]. split.
+        { destruct Hs1 as (a1 & a2 & a3 & a4 & a5), Hs2 as (b1 & b2 & b3 & b4 & b5). unfold same_session. repeat split; congruence. }
+        split; [exact Hstop|]. split; [intros [H|H]; [congruence|lia]|lia].
+    - split; [exact HR|]. split; [auto|]. split; [unfold same_session; auto|].
+      apply andb_false_iff in E. split.
+      + destruct E as [E|E]; [left; rewrite Z.geb_leb in E; apply Z.leb_gt in E; lia|right; now apply negb_false_iff in E].
+      + split; [reflexivity|lia].
+  Qed.
+
+  Lemma reslice_R c : R c -> bufStart c < chunkStart c < bufStart c + zlen (buf c) ->
+    R (reslice c) /\ CS (reslice c) /\ same_session c (reslice c) /\ bufStart (reslice c) = chunkStart c /\ 0 < zlen (buf (reslice c)) /\
+    final (reslice c) = final c /\ rest (reslice c) = rest c.
+  Proof.
+    intros (H1 & H2 & (pre & Hp & Hz) & H4 & H4b & H5) [Hlo Hhi]. unfold reslice.
+    assert (E : (chunkStart c >? bufStart c) && (chunkStart c <? bufStart c + zlen (buf c)) = true).
+    { apply andb_true_intro. split; [apply Z.gtb_lt; lia|apply Z.ltb_lt; lia]. }
+    rewrite E. set (k := Z.to_nat (chunkStart c - bufStart c)).
+    assert (Hk : (k < length (buf c))%nat) by (unfold zlen in Hhi; subst k; lia).
+    split; [|split; [reflexivity|split; [unfold same_session; cbn; auto|split; [reflexivity|split; [|split; reflexivity]]]]].
+    - unfold R; cbn [digested rest final bufStart buf bcap chunkStart chunkSize].
+      split; [exact H1|]. split; [exact H2|]. split.
+      { exists (pre ++ firstn k (buf c)). split; [rewrite <- app_assoc, firstn_skipn; exact Hp|].
+        rewrite zlen_app', zlen_firstn by lia. subst k. lia. }
+      split; [lia|]. split; [rewrite skipn_length; lia|lia].
+    - cbn [buf]. rewrite zlen_skipn. unfold zlen. lia.
+  Qed.
+
+  Definition M (c : cst) : nat := (Z.to_nat (zlen stream - chunkStart c) + (if final c then 0 else 1))%nat.
+
+  (* one iteration from a state in step with the registry in which the loop continues *)
+  Lemma iterate_sync c : R c -> Sync c -> Budget c -> continue c = true -> CS c ->
+    exists c', iterate c = (c', Running) /\ R c' /\ Sync c' /\ Budget c' /\ (continue c' = true -> CS c') /\ (M c' < M c)%nat.
+  Proof.
+    intros HR [[post Hpost] Hcs] HB Hcont HCS. unfold iterate.
+    destruct (read_ahead_R (S (length (rest c))) c HR ltac:(lia)) as (HR1 & HC1 & Hs1 & Hstop & Hsame & Hle).
+    set (c1 := read_ahead (S (length (rest c))) c) in *. specialize (HC1 HCS).
+    destruct Hs1 as (S1 & S2 & S3 & S4 & S5).
+    assert (Hfin1 : final c = true -> c1 = c) by (intro H; apply Hsame; now left).
+    assert (Hcle : chunkStart c <= zlen stream) by (rewrite Hcs, <- Hpost, zlen_app'; pose proof (zlen_nonneg post); lia).
+    destruct (Z_lt_ge_dec (chunkStart c1) (bufStart c1 + zlen (buf c1))) as [Hin|Hout].
+    - (* something to send *)
+      assert (Hlo1 : bufStart c1 <= chunkStart c1) by apply HR1.
+      assert (Hc2 : exists c2, reslice c1 = c2 /\ R c2 /\ CS c2 /\ same_session c1 c2 /\ bufStart c2 = chunkStart c2 /\ 0 < zlen (buf c2) /\
+                               final c2 = final c1 /\ rest c2 = rest c1).
+      { destruct (Z.eq_dec (bufStart c1) (chunkStart c1)) as [Heq|Hne].
+        - exists c1. split.
+          + unfold reslice. replace (chunkStart c1 >? bufStart c1) with false by (symmetry; rewrite Z.gtb_ltb; apply Z.ltb_ge; lia). reflexivity.
+          + split; [exact HR1|]. split; [exact HC1|]. split; [unfold same_session; auto|]. split; [exact Heq|]. split; [lia|split; reflexivity].
+        - destruct (reslice_R c1 HR1 ltac:(lia)) as (Ha & Ha' & Hb & Hc & Hd & He & Hf). eexists. split; [reflexivity|].
+          split; [exact Ha|]. split; [exact Ha'|]. split; [exact Hb|]. destruct Hb as (Hb1 & _). split; [congruence|]. split; [exact Hd|split; assumption]. }
+      destruct Hc2 as (c2 & -> & HR2 & HC2 & (T1 & T2 & T3 & T4 & T5) & Hb2 & Hl2 & Hf2 & Hr2).
+      assert (Hset : settle c2 = c2).
+      { unfold settle. replace (chunkStart c2 >=? bufStart c2 + zlen (buf c2)) with false; [now rewrite andb_false_r|].
+        symmetry. rewrite Z.geb_leb. apply Z.leb_gt. lia. }
+      rewrite Hset. unfold CS in HC2.
+      destruct HR2 as (K1 & K2 & (pre & Hp & Hz) & K4 & K4b & K5).
+      assert (Hgt : chunkSize c2 >? 0 = true) by (apply Z.gtb_lt; lia). rewrite Hgt. cbn [andb].
+      replace (chunkStart c2 =? bufStart c2) with true by (symmetry; apply Z.eqb_eq; lia). cbn [negb].
+      assert (Hsd2 : sdata c2 = sdata c) by congruence.
+      assert (Hcs2 : chunkStart c2 = zlen (sdata c2)) by congruence.
+      assert (Hpre : pre = sdata c2).
+      { assert (E : pre ++ (buf c2 ++ rest c2) = sdata c ++ post) by (rewrite app_assoc, <- Hp, K1; symmetry; exact Hpost).
+        apply prefix_same in E; [destruct E as [E _]; congruence|]. unfold zlen in *. rewrite <- Hsd2. lia. }
+      unfold patch. replace (chunkStart c2 =? zlen (sdata c2)) with true by (symmetry; apply Z.eqb_eq; exact Hcs2). cbn [negb].
+      assert (Hsc : script c2 = script c) by congruence. assert (Hrt : retry c2 = retry c) by congruence.
+      assert (Hfull : (sdata c2 ++ buf c2) ++ rest c2 = stream) by (rewrite <- Hpre, <- Hp; exact K1).
+      assert (Hcsc : chunkStart c2 = chunkStart c) by congruence.
+      assert (Mle : forall c', chunkStart c' > chunkStart c -> chunkStart c' <= zlen stream -> final c' = final c2 -> (M c' < M c)%nat).
+      { intros c' Hgt' Hle' Hf'. unfold M. rewrite Hf', Hf2.
+        destruct (final c) eqn:Efc; [rewrite (Hfin1 eq_refl), Efc; lia|]. destruct (final c1); lia. }
+      assert (Hlen_all : zlen (sdata c2) + zlen (buf c2) <= zlen stream).
+      { rewrite <- Hfull, !zlen_app'. pose proof (zlen_nonneg (rest c2)). lia. }
+      unfold Budget in HB. rewrite <- Hsc, <- Hrt in HB.
+      assert (HRout : forall sd rt sc' lg' cs', bufStart c2 <= cs' ->
+                R (mkC (rest c2) (digested c2) (bufStart c2) (buf c2) (bcap c2) cs' (chunkSize c2) (final c2) rt sd sc' lg')).
+      { intros. unfold R; cbn [digested rest final bufStart buf bcap chunkStart chunkSize]. repeat split; auto. exists pre; now split. }
+      destruct (script c2) as [|[| |k|] s'] eqn:Esc; rewrite ?Esc in HB; unfold drops in *; cbn [filter is_drop length] in HB.
+      + eexists. split; [reflexivity|]. split; [apply HRout; rewrite zlen_app'; lia|].
+        unfold Sync, Budget, CS, drops; cbn [buf chunkStart chunkSize sdata script retry tl final].
+        split; [split; [exists (rest c2); exact Hfull|reflexivity]|]. split; [cbn; lia|]. split; [intros _; exact HC2|].
+        apply Mle; cbn [chunkStart final]; [rewrite zlen_app'; lia|rewrite zlen_app'; lia|reflexivity].
+      + eexists. split; [reflexivity|]. split; [apply HRout; rewrite zlen_app'; lia|].
+        unfold Sync, Budget, CS, drops; cbn [buf chunkStart chunkSize sdata script retry tl final].
+        split; [split; [exists (rest c2); exact Hfull|reflexivity]|]. split; [cbn [filter is_drop length] in *; lia|]. split; [intros _; exact HC2|].
+        apply Mle; cbn [chunkStart final]; [rewrite zlen_app'; lia|rewrite zlen_app'; lia|reflexivity].
+      + eexists. split; [reflexivity|]. split; [apply HRout; lia|].
+        unfold Sync, Budget, CS, drops; cbn [buf chunkStart chunkSize sdata script retry tl final].
+        split; [split; [exists (rest c2); exact Hfull|rewrite zlen_app'; lia]|]. split; [cbn [filter is_drop length] in *; lia|]. split; [intros _; exact HC2|].
+        apply Mle; cbn [chunkStart final]; [lia|lia|reflexivity].
+      + destruct (firstn k (buf c2)) as [|b0 kept'] eqn:Ek.
+        * eexists. split; [reflexivity|]. rewrite app_nil_r. split; [apply HRout; rewrite zlen_app'; lia|].
+          unfold Sync, Budget, CS, drops; cbn [buf chunkStart chunkSize sdata script retry tl final].
+          split; [split; [exists (rest c2); exact Hfull|reflexivity]|]. split; [cbn [filter is_drop length] in *; lia|]. split; [intros _; exact HC2|].
+          apply Mle; cbn [chunkStart final]; [rewrite zlen_app'; lia|rewrite zlen_app'; lia|reflexivity].
+        * assert (Hkept : buf c2 = (b0 :: kept') ++ skipn k (buf c2)) by (rewrite <- Ek; symmetry; apply firstn_skipn).
+          assert (Hnolimit : Nat.ltb retry_limit (S (retry c2)) = false) by (apply Nat.ltb_ge; lia).
+          rewrite Hnolimit.
+          assert (Hzk : 0 < zlen (b0 :: kept') <= zlen (buf c2)).
+          { split; [unfold zlen; cbn; lia|]. assert (E : zlen (buf c2) = zlen (b0 :: kept') + zlen (skipn k (buf c2))) by (rewrite <- zlen_app', <- Hkept; reflexivity). pose proof (zlen_nonneg (skipn k (buf c2))). lia. }
+          eexists. split; [reflexivity|]. split; [apply HRout; rewrite zlen_app'; lia|].
+          unfold Sync, Budget, CS, drops; cbn [buf chunkStart chunkSize sdata script retry tl final].
+          split; [split; [exists (skipn k (buf c2) ++ rest c2); rewrite <- Hfull; now apply split3|reflexivity]|].
+          split; [cbn [filter is_drop length] in *; lia|]. split; [intros _; exact HC2|].
+          apply Mle; cbn [chunkStart final]; [rewrite zlen_app'; lia|rewrite zlen_app'; lia|reflexivity].
+      + eexists. split; [reflexivity|]. split; [apply HRout; rewrite zlen_app'; lia|].
+        unfold Sync, Budget, CS, drops; cbn [buf chunkStart chunkSize sdata script retry tl final].
+        split; [split; [exists (rest c2); exact Hfull|reflexivity]|]. split; [cbn [filter is_drop length] in *; lia|]. split; [intros _; exact HC2|].
+        apply Mle; cbn [chunkStart final]; [rewrite zlen_app'; lia|rewrite zlen_app'; lia|reflexivity].
+    - (* everything read is acknowledged: this was the last (possibly empty) read *)
+      destruct Hstop as [Hlt|Hf1]; [lia|].
+      assert (Hfc : final c = false).
+      { destruct (final c) eqn:Efc; [|reflexivity]. rewrite (Hfin1 eq_refl) in Hout. unfold continue in Hcont. rewrite Efc in Hcont. cbn in Hcont. apply Z.ltb_lt in Hcont. lia. }
+      assert (Hres : reslice c1 = c1).
+      { unfold reslice. replace (chunkStart c1 <? bufStart c1 + zlen (buf c1)) with false by (symmetry; apply Z.ltb_ge; lia). now rewrite andb_false_r. }
+      rewrite Hres. unfold settle. rewrite Hf1. replace (chunkStart c1 >=? bufStart c1 + zlen (buf c1)) with true by (symmetry; apply Z.geb_le; lia). cbn [andb].
+      cbn [chunkSize]. cbn [Z.gtb Z.compare andb]. eexists. split; [reflexivity|].
+      destruct HR1 as (K1 & K2 & K3 & K4 & K4b & K5).
+      unfold R, Sync, Budget, CS, M, continue; cbn [digested rest final bufStart buf bcap chunkStart chunkSize sdata script retry].
+      split; [repeat split; auto|]. split; [split; [exists post; congruence|congruence]|].
+      split; [unfold Budget in HB; rewrite S3, S4; exact HB|]. split.
+      + cbn [negb orb]. intro H. apply Z.ltb_lt in H. lia.
+      + rewrite Hfc, S1. lia.
+  Qed.
+
+  Lemma loop_sync : forall n c, R c -> Sync c -> Budget c -> (continue c = true -> CS c) -> (M c <= n)%nat ->
+    exists c', (forall k, loop (S n + k) c = (c', Done)) /\ R c' /\ Sync c' /\ continue c' = false.
+  Proof.
+    induction n as [|n IH]; intros c HR HS HB HC HM.
+    - destruct (continue c) eqn:Ec.
+      + destruct (iterate_sync c HR HS HB Ec (HC eq_refl)) as (c1 & _ & _ & _ & _ & _ & Hlt). lia.
+      + exists c. split; [intro k; cbn [Nat.add loop]; now rewrite Ec|auto].
+    - destruct (continue c) eqn:Ec.
+      + destruct (iterate_sync c HR HS HB Ec (HC eq_refl)) as (c1 & Hi & HR1 & HS1 & HB1 & HC1 & Hlt).
+        destruct (IH c1 HR1 HS1 HB1 HC1 ltac:(lia)) as (c' & Hl & HR' & HS' & Hc').
+        exists c'. split; [|auto]. intro k. change (S (S n) + k)%nat with (S (S n + k)). cbn [loop]. rewrite Ec, Hi. apply Hl.
+      + exists c. split; [intro k; cbn [Nat.add loop]; now rewrite Ec|auto].
+  Qed.
+
+  (* at the exit everything read has been acknowledged: the registry holds the stream *)
+  Lemma exit_complete c : R c -> Sync c -> continue c = false ->
+    digested c = stream /\ sdata c = stream /\ chunkStart c = zlen stream.
+  Proof.
+    intros (K1 & K2 & (pre & Hp & Hz) & _ & _ & K5) [[post Hpost] Hcs] Hc.
+    unfold continue in Hc. apply orb_false_iff in Hc as [Hf Hge]. apply negb_false_iff in Hf. apply Z.ltb_ge in Hge.
+    assert (Hd : digested c = stream) by (rewrite <- K1, (K2 Hf); symmetry; apply app_nil_r).
+    assert (Hl : zlen stream <= zlen (sdata c)).
+    { rewrite <- Hd, Hp, zlen_app'. lia. }
+    assert (Hpn : post = []).
+    { apply zlen_nil_iff. pose proof (zlen_nonneg post). assert (zlen (sdata c) + zlen post = zlen stream) by (rewrite <- zlen_app', Hpost; reflexivity). lia. }
+    subst post. rewrite app_nil_r in Hpost. split; [exact Hd|]. split; [exact Hpost|]. now rewrite Hcs, Hpost.
+  Qed.
+
+  Lemma init_R cap held sc : (0 < cap)%nat -> R (init stream cap held sc) /\ CS (init stream cap held sc).
+  Proof.
+    intro Hc. unfold R, CS, init; cbn. split; [|reflexivity]. split; [reflexivity|]. split; [discriminate|].
+    split; [exists []; now split|]. split; [exact Hc|]. split; lia.
+  Qed.
+
+  (* the session already holds a non-empty prefix (the failed single-request PUT left it): the first PATCH is answered
+     416 + Range and puts the client in step *)
+  Lemma first_iterate cap h0 held' tail sc : (0 < cap)%nat -> stream = (h0 :: held') ++ tail -> (1 + drops sc <= retry_limit)%nat ->
+    exists c1, iterate (init stream cap (h0 :: held') sc) = (c1, Running) /\ R c1 /\ Sync c1 /\ Budget c1 /\ CS c1 /\ (M c1 <= length stream)%nat.
+  Proof.
+    intros Hc Hst HB. set (c0 := init stream cap (h0 :: held') sc). destruct (init_R cap (h0 :: held') sc Hc) as [HR0 HC0]. fold c0 in HR0, HC0.
+    unfold iterate.
+    destruct (read_ahead_R (S (length (rest c0))) c0 HR0 ltac:(lia)) as (HR1 & HC1 & (S1 & S2 & S3 & S4 & S5) & Hstop & _ & _).
+    set (c1 := read_ahead (S (length (rest c0))) c0) in *. specialize (HC1 HC0).
+    assert (Hs0 : chunkStart c1 = 0) by (rewrite S1; reflexivity).
+    destruct HR1 as (K1 & K2 & (pre & Hp & Hz) & K4 & K4b & K5).
+    assert (Hb0 : bufStart c1 = 0) by (pose proof (zlen_nonneg pre); lia).
+    assert (Hpre : pre = []) by (apply zlen_nil_iff; lia). subst pre. cbn [app] in Hp.
+    assert (Hne : stream <> []) by (rewrite Hst; discriminate).
+    assert (Hin : 0 < zlen (buf c1)).
+    { destruct Hstop as [H|H]; [lia|]. rewrite <- Hp. assert (Hd : digested c1 = stream) by (rewrite <- K1, (K2 H); symmetry; apply app_nil_r).
+      rewrite Hd. destruct stream; [congruence|unfold zlen; cbn; lia]. }
+    assert (Hres : reslice c1 = c1).
+    { unfold reslice. replace (chunkStart c1 >? bufStart c1) with false by (symmetry; rewrite Z.gtb_ltb; apply Z.ltb_ge; lia). reflexivity. }
+    rewrite Hres.
+    assert (Hset : settle c1 = c1).
+    { unfold settle. replace (chunkStart c1 >=? bufStart c1 + zlen (buf c1)) with false; [now rewrite andb_false_r|]. symmetry. rewrite Z.geb_leb. apply Z.leb_gt. lia. }
+    rewrite Hset. unfold CS in HC1.
+    replace (chunkSize c1 >? 0) with true by (symmetry; apply Z.gtb_lt; lia). cbn [andb].
+    replace (chunkStart c1 =? bufStart c1) with true by (symmetry; apply Z.eqb_eq; lia). cbn [negb].
+    unfold patch. rewrite S2. change (sdata c0) with (h0 :: held').
+    replace (chunkStart c1 =? zlen (h0 :: held')) with false by (symmetry; apply Z.eqb_neq; rewrite Hs0; unfold zlen; cbn; lia). cbn [negb].
+    rewrite S4. change (retry c0) with 0%nat. change (Nat.ltb retry_limit 1) with false.
+    eexists. split; [reflexivity|].
+    unfold R, Sync, Budget, CS, M; cbn [digested rest final bufStart buf bcap chunkStart chunkSize sdata script retry].
+    split; [repeat split; auto; [exists []; now split|rewrite Hb0; apply zlen_nonneg]|].
+    split; [split; [exists tail; now symmetry|reflexivity]|]. split; [rewrite S3; exact HB|]. split; [exact HC1|].
+    rewrite Hst at 1. rewrite zlen_app'. assert (0 < zlen (h0 :: held')) by (unfold zlen; cbn; lia).
+    assert (Hlen : length stream = (length (h0 :: held') + length tail)%nat) by (rewrite Hst, app_length; reflexivity).
+    unfold zlen in *. destruct (final c1); lia.
+  Qed.
+End Succeeds.
+
+(* the general statement: any prefix already held by the session (fall-back from the single-request upload), any
+   script of accepted, relocated, early-201 and dropped-after-k-bytes requests within the retry budget *)
+Theorem spec_conforming_succeeds stream cap held tail sc declared dsize : (0 < cap)%nat -> stream = held ++ tail ->
+  (drops sc + (match held with [] => 0 | _ => 1 end) <= retry_limit)%nat ->
+  (declared = None \/ declared = Some stream) -> (dsize = 0 \/ dsize = zlen stream) ->
+  forall k, exists lg, upload (length stream + 3 + k) stream cap held sc declared dsize = (Done, Some stream, lg).
 Proof.
-  induction n as [|n IH]; intros c HJ Hn.
-  - (* nothing left to read *)
-    assert (Hr : rest c = []) by (destruct (rest c); [reflexivity|cbn in Hn; lia]).
-    destruct (final c) eqn:Ef.
-    + exists c. cbn [Nat.add loop]. rewrite (continue_final c HJ Ef). rewrite Hr, app_nil_r. auto.
-    + destruct (iterate_J c HJ Ef) as (c1 & Hi & HJ1 & Hd & _ & Hlast). destruct (Hlast Hr) as [Hf1 Hr1].
-      exists c1. cbn [Nat.add loop]. rewrite (continue_more c Ef), Hi. rewrite (continue_final c1 HJ1 Hf1).
-      rewrite Hr1, app_nil_r in Hd. auto.
-  - destruct (final c) eqn:Ef.
-    + exists c. cbn [Nat.add loop]. rewrite (continue_final c HJ Ef). destruct HJ as (H1 & H2 & H3 & H4 & H5 & H6 & H7).
-      rewrite (H7 Ef), app_nil_r. unfold J. auto 10.
-    + destruct (iterate_J c HJ Ef) as (c1 & Hi & HJ1 & Hd & Hless & Hlast).
-      change (S n + 2)%nat with (S (n + 2)). cbn [loop]. rewrite (continue_more c Ef), Hi.
-      destruct (rest c) as [|x r] eqn:Er.
-      * destruct (Hlast eq_refl) as [Hf1 Hr1]. exists c1. replace (n + 2)%nat with (S (n + 1)) by lia. cbn [loop].
-        rewrite (continue_final c1 HJ1 Hf1). rewrite Hr1, !app_nil_r in Hd. rewrite ?app_nil_r. split; [reflexivity|]. split; [exact HJ1|]. split; [exact Hd|exact Hr1].
-      * assert (Hl1 : (length (rest c1) <= n)%nat) by (specialize (Hless ltac:(discriminate)); cbn in *; lia).
-        destruct (IH c1 HJ1 Hl1) as (c' & Hloop & HJ' & Hd' & Hr'). exists c'. rewrite Hloop. split; [reflexivity|]. split; [exact HJ'|]. split; [now rewrite Hd', Hd|exact Hr'].
+  intros Hc Hst HB Hd Hs k.
+  assert (Hloop : exists c', loop (length stream + 3 + k) (init stream cap held sc) = (c', Done) /\
+                             digested c' = stream /\ sdata c' = stream /\ chunkStart c' = zlen stream).
+  { destruct held as [|h0 held'].
+    - destruct (init_R stream cap [] sc Hc) as [HR0 HC0].
+      assert (HS0 : Sync stream (init stream cap [] sc)) by (split; [exists stream; reflexivity|reflexivity]).
+      assert (HB0 : Budget (init stream cap [] sc)) by (unfold Budget, init; cbn [retry script]; lia).
+      assert (HM0 : (M stream (init stream cap [] sc) <= length stream + 1)%nat) by (unfold M, zlen; cbn; lia).
+      destruct (loop_sync stream _ _ HR0 HS0 HB0 (fun _ => HC0) HM0) as (c' & Hl & HR' & HS' & Hc').
+      exists c'. split; [|now apply exit_complete]. replace (length stream + 3 + k)%nat with (S (length stream + 1) + (1 + k))%nat by lia. apply Hl.
+    - destruct (first_iterate stream cap h0 held' tail sc Hc Hst ltac:(lia)) as (c1 & Hi & HR1 & HS1 & HB1 & HC1 & HM1).
+      destruct (loop_sync stream _ _ HR1 HS1 HB1 (fun _ => HC1) HM1) as (c' & Hl & HR' & HS' & Hc').
+      exists c'. split; [|now apply exit_complete].
+      replace (length stream + 3 + k)%nat with (S (S (length stream) + (1 + k)))%nat by lia. cbn [loop].
+      assert (Ec : continue (init stream cap (h0 :: held') sc) = true) by reflexivity. rewrite Ec, Hi. apply Hl. }
+  destruct Hloop as (c' & Hl & Hdg & Hsd & Hcs).
+  unfold upload. rewrite Hl.
+  assert (Hfin : finish declared dsize c' = Done).
+  { unfold finish. rewrite Hdg. destruct Hd as [->| ->].
+    - destruct Hs as [->| ->]; cbn; [reflexivity|]. rewrite Hcs, Z.eqb_refl. now destruct (zlen stream =? 0).
+    - rewrite beq_refl. cbn. destruct Hs as [->| ->]; cbn; [reflexivity|]. rewrite Hcs, Z.eqb_refl. now destruct (zlen stream =? 0). }
+  rewrite Hfin, Hsd, Hdg, beq_refl. eauto.
 Qed.
 
-Lemma init_J stream cap sc : (0 < cap)%nat -> accepting sc = true -> J (init stream cap [] sc).
-Proof. intros Hc Ha. unfold J, init. cbn. repeat split; auto; discriminate. Qed.
+Lemma accepting_no_drops sc : accepting sc = true -> drops sc = 0%nat.
+Proof.
+  unfold drops. induction sc as [|a sc IH]; [reflexivity|]. cbn [accepting forallb]. intro H. apply andb_prop in H as [Ha Hs].
+  destruct a; try discriminate; cbn [filter is_drop]; now apply IH.
+Qed.
 
 Theorem conforming_succeeds stream cap sc declared dsize : (0 < cap)%nat -> accepting sc = true ->
   (declared = None \/ declared = Some stream) -> (dsize = 0 \/ dsize = zlen stream) ->
-  exists lg, upload (length stream + 2) stream cap [] sc declared dsize = (Done, Some stream, lg).
+  exists lg, upload (length stream + 3) stream cap [] sc declared dsize = (Done, Some stream, lg).
 Proof.
-  intros Hc Ha Hd Hs. destruct (loop_J (length stream) (init stream cap [] sc) (init_J stream cap sc Hc Ha)) as (c' & Hl & HJ & Hdg & Hr); [cbn; lia|].
-  unfold upload. rewrite Hl. cbn [digested rest init] in Hdg. cbn in Hdg.
-  destruct HJ as (_ & Hcs & _ & Hsd & _).
-  assert (Hfin : finish declared dsize c' = Done).
-  { unfold finish. rewrite Hdg. destruct Hd as [->| ->].
-    - destruct Hs as [->| ->]; cbn; [reflexivity|]. rewrite Hcs, Hsd, Hdg, Z.eqb_refl. now destruct (zlen stream =? 0).
-    - rewrite beq_refl. cbn. destruct Hs as [->| ->]; cbn; [reflexivity|]. rewrite Hcs, Hsd, Hdg, Z.eqb_refl. now destruct (zlen stream =? 0). }
-  rewrite Hfin, Hsd, beq_refl, Hdg. eauto.
+  intros Hc Ha Hd Hs. replace (length stream + 3)%nat with (length stream + 3 + 0)%nat by lia.
+  apply (spec_conforming_succeeds stream cap [] stream sc); auto. rewrite (accepting_no_drops _ Ha). cbn. unfold retry_limit. lia.
 Qed.
